@@ -615,6 +615,15 @@ func (s *sim) jobGone(ns, name string) bool {
 	return s.c.Delete(context.TODO(), j) == nil
 }
 
+// userDelete: the user (or the garbage collector, for a deleted Experiment) deletes a Trial
+func (s *sim) userDelete(ns, name string) bool {
+	tt := &trialsv1beta1.Trial{}
+	if s.c.Get(context.TODO(), types.NamespacedName{Namespace: ns, Name: name}, tt) != nil || tt.DeletionTimestamp != nil {
+		return false
+	}
+	return s.c.Delete(context.TODO(), tt) == nil
+}
+
 func (s *sim) metric(trial, val string) {
 	s.db.logs[trial] = append(s.db.logs[trial], dbEntry{val, time.Unix(int64(1700000000+s.opIndex), 0).UTC().Format(time.RFC3339)})
 }
